@@ -132,6 +132,7 @@ class LiquidTag(Tag):
                         token=token_,
                     ),
                     block_depth_carry=stream.block_depth,
+                    parent_token=token_,
                 ),
                 end=(),
             )
